@@ -71,6 +71,7 @@ type World struct {
 	Takeover bool // run the crash/take-over oracle after each grant
 	nextNode int
 	SaveLog []int64 // successive stored bounds
+	SaveInterval time.Duration // tso-save-interval of every node (0: 3s)
 }
 
 // NewWorld creates the fake etcd and the virtual clock.
@@ -120,6 +121,9 @@ func (w *World) AddNode(id int, st *fakeetcd.Store) *Node {
 	cl := st.Client()
 	m := member.NewMember(nil, cl, uint64(id))
 	cfg := Cfg()
+	if w.SaveInterval != 0 {
+		cfg.TSOSaveInterval = typeutil.NewDuration(w.SaveInterval)
+	}
 	m.MemberInfo(cfg, fmt.Sprintf("pd%d", id), Root)
 	am := tso.NewAllocatorManager(m, Root, cfg, func() time.Duration { return 24 * time.Hour })
 	ctx, cancel := context.WithCancel(context.Background())
@@ -374,6 +378,35 @@ func Handover(off time.Duration) Admin {
 		if err := n2.Campaign(); err == nil {
 			w.Request(n2, 1)
 			w.Request(n2, 2)
+		}
+		sched.SetMember(old)
+	}}
+}
+
+// Handover2 is two leader changes in a row: node 1 steps down, node 2 (clock offset
+// off) campaigns and serves, steps down, node 3 (same offset) campaigns and serves.
+func Handover2(off time.Duration) Admin {
+	return Admin{Name: fmt.Sprintf("handover-twice%+v", off), Run: func(w *World, n1 *Node) {
+		old := sched.SetMember(n1.ID)
+		n1.StepDown()
+		prev := n1
+		for _, id := range []int{2, 3} {
+			if prev != n1 {
+				sched.SetMember(prev.ID)
+				prev.StepDown()
+			}
+			vclock.SetOffset(id, off)
+			sched.SetMember(id)
+			n := w.Nodes[id]
+			if n == nil {
+				n = w.AddNode(id, nil)
+			}
+			if err := n.Campaign(); err != nil {
+				break
+			}
+			w.Request(n, 1)
+			w.Request(n, 2)
+			prev = n
 		}
 		sched.SetMember(old)
 	}}
